@@ -126,6 +126,26 @@ def commentRemoverOwners : List String :=
   ["vsg.rules.remove_comments_from_end_of_lines_bounded_by_tokens.remove_comments_from_end_of_lines_bounded_by_tokens",
    "vsg.rules.multiline_structure.multiline_structure"]
 
+/-- comment-like tokens with the flag "stands alone on its line" (only whitespace between the previous
+    line break, or the start of the list, and the comment) -/
+def commentsWithOwnLine : List Tok → Bool → List (Str × Bool)
+  | [], _ => []
+  | t :: r, atStart =>
+    if t.isCommentLike then (t.val, atStart) :: commentsWithOwnLine r false
+    else if t.isCr then commentsWithOwnLine r true
+    else if t.kind == .ws || t.kind == .blank then commentsWithOwnLine r atStart
+    else commentsWithOwnLine r false
+
+/-- the documented trailing-comment removers may delete comments that FOLLOW code on their line only -/
+def onlyTrailingRemoved (a b : List Tok) : Bool :=
+  match extras (commentsWithOwnLine b true) (commentsWithOwnLine a true) with
+  | some e => e.all (fun p => !p.2)
+  | none => false
+
+/-- owners documented to remove trailing comments only -/
+def trailingCommentRemoverOwners : List String :=
+  ["vsg.rules.remove_comments_from_end_of_lines_bounded_by_tokens.remove_comments_from_end_of_lines_bounded_by_tokens"]
+
 def ruleMap : Std.HashMap String RuleRow := Std.HashMap.ofList (Gen.ruleTable.map fun r => (r.id, r))
 
 structure Verdicts where
@@ -179,6 +199,8 @@ def verdicts (f after : List STok) (si : StepIn) (o : StepOut) : Verdicts :=
     if o.celBefore && !o.cel then "commentAbsorbsCode"
     else if o.comment then "ok"
     else if si.kind == "fix" && owner ∈ commentWsOwners && ma.map (·.filter (fun c => !isWsChar c)) == mb.map (·.filter (fun c => !isWsChar c)) then "ok"
+    else if si.kind == "fix" && owner ∈ trailingCommentRemoverOwners then
+      (if onlyTrailingRemoved a b then "ok" else "ownLineCommentRemoved")
     else if si.kind == "fix" && owner ∈ commentRemoverOwners && (extras mb ma).isSome then "ok"
     else if (extras mb ma).isSome then "commentLost"
     else if (extras ma mb).isSome then "commentInvented"
